@@ -10,6 +10,18 @@ CHECKS = {
  "C15": ("exploration", "runtime differential monitor: hooked dvb.go conversions vs integer civil-calendar oracle, exhaustive enumeration of days, times of day and BCD patterns",
          "All 50457 MJD values and all 86400 times of day are decoded and encoded (jointly on a grid in quick, all days x all seconds encoded in thorough); all 10^4/10^6 digit patterns and all 2^16/2^24 raw patterns of the durations.",
          "Trusts refts/dvb.go (anchored on the Annex C example and cross-checked against time.AddDate); UTC times only.", "DESIGN.md §4 C15"),
+ "C11": ("exploration", "runtime differential monitor: NextPacket / Muxer.WritePacket on reference-encoded packet models vs independent ISO 13818-1 packet codec; re-emission byte comparison",
+         "Header cross product (all 8192 PIDs, all flag/scrambling/counter combinations), every subset of adaptation parts and extension parts, every adaptation_field_length 0..183, single-bit clock values; parse, write and re-emit compared on every case.",
+         "Trusts refts/packet.go (self-checked against hand-assembled bytes). IsOneByteStuffing is ignored on parse comparison (not part of the TS format). No reserved bytes inside the adaptation extension.", "DESIGN.md §4 C11"),
+ "C12": ("exploration", "runtime differential monitor: NextData / parsePESData hook on reference-encoded PES models and WriteData output after independent reassembly vs independent PES codec; Duration vs big.Int",
+         "All 256 optional-header flag bytes x 16 extension subsets, single-bit timestamp values, all trick mode bytes, CRC values, header stuffing, four PES_packet_length modes, all stream ids; writer-supported headers compared byte for byte.",
+         "Trusts refts/pes.go; pack_header_field excluded; one known finding (six Table 2-21 stream ids) is listed in KNOWN_FINDINGS.txt.", "DESIGN.md §4 C12"),
+ "C13": ("exploration", "runtime differential monitor: NextData and parsePSIData hook on reference-encoded table sections (random reserved bits) and writePSIData output vs independent PSI/SI codec",
+         "Random PAT/PMT/NIT/SDT/EIT/TOT models up to the section size limits, every table_id variant, 1..n sections per unit, descriptor loops from the C14 generator; PAT/PMT written and compared byte for byte.",
+         "Trusts refts/psi.go and refts/descriptors.go; units are packet aligned.", "DESIGN.md §4 C13"),
+ "C14": ("exploration", "runtime differential monitor: parseDescriptors / writeDescriptorsWithLength hooks vs independent descriptor codec; sentinel technique for malformed lengths",
+         "Per tag (23 typed, user-defined, unknown, extension with unknown sub-tag) boundary-biased models parsed and written with the struct Length right/0/wrong; emitted length fields checked against emitted bytes; malformed descriptor_length followed by a sentinel descriptor.",
+         "Trusts refts/descriptors.go (29 known-answer vectors); models restricted to what the structs can represent; VBI services without line entries compared semantically (any number of reserved bytes is conformant).", "DESIGN.md §4 C14"),
 }
 
 NOT_YET = {}
